@@ -61,7 +61,12 @@ func stepSet(lo, hi, step int64) []int64 {
 // guardAcceptSet runs the value-set analysis of validator fn over len(p0) and
 // returns the values that can reach a nil-error return / any non-nil-error return.
 func guardSets(c *Ctx, fn *ssa.Function, hi int64) (acc, rej map[int64]bool, exact bool) {
-	b := ana.NewBuilder(c.P, fn)
+	return guardSetsB(c, fn, ana.NewBuilder(c.P, fn), hi)
+}
+
+// guardSetsB: the same with the validator's parameters bound to the arguments of its call (len(p0) is then the
+// caller's quantity, whatever the validator is handed).
+func guardSetsB(c *Ctx, fn *ssa.Function, b *ana.Builder, hi int64) (acc, rej map[int64]bool, exact bool) {
 	v := &ana.VSA{B: b, Tracked: []string{"len(p0)"}, Ranges: [][2]int64{{0, hi}}}
 	sets, tuples := v.Run()
 	acc, rej = map[int64]bool{}, map[int64]bool{}
@@ -89,12 +94,17 @@ func c03Sizes(c *Ctx) {
 	}
 	fn := f.Function
 	b := ana.NewBuilder(c.P, fn)
-	acc := edgesMatching(b, "bin<==>(alt(call<*>(p0), ext#1(call<*>(p0)), ext#2(call<*>(p0))), nil)")
+	// the validator is handed the entropy, or its bit count
+	acc := edgesMatching(b, "bin<==>(alt(call<*>(p0), ext#1(call<*>(p0)), ext#2(call<*>(p0)), call<*>(bin<*>(len(p0), 8))), nil)")
 	if len(acc) != 1 {
 		r.Undec("C03.entropy-sizes.anchor", c.P.Pos(fn.Pos()), "no single validator gate `validate(entropy) == nil` in EntropyToMnemonic")
 		return
 	}
 	val := calleeOf(acc[0].Lit.Arg(0))
+	valCall := acc[0].Lit.Arg(0)
+	for valCall != nil && valCall.Op != "call" && len(valCall.Args) > 0 {
+		valCall = valCall.Args[0]
+	}
 	if val == nil {
 		r.Undec("C03.entropy-sizes.anchor", c.P.Pos(fn.Pos()), "validator callee not resolved")
 		return
@@ -109,11 +119,11 @@ func c03Sizes(c *Ctx) {
 		if errT.Is("nil") {
 			r.Check(exitMustPass(fn, e, plainEdges(acc)), "C03.entropy-sizes.gate", c.ipos(e.Instr), "success return only after the size validator returned nil")
 		} else {
-			_, ok := ana.Match("alt(call<*>(p0), ext#1(call<*>(p0)), ext#2(call<*>(p0)))", errT)
+			_, ok := ana.Match("alt(call<*>(p0), ext#1(call<*>(p0)), ext#2(call<*>(p0)), call<*>(bin<*>(len(p0), 8)))", errT)
 			r.Check(ok && calleeOf(errT) == val && b.Of(e.Results[0], e.Instr).Is("nil"), "C03.entropy-sizes.error-propagated", c.ipos(e.Instr), "error return propagates the validator's error and returns no mnemonic: %s", short(errT.String(), 120))
 		}
 	}
-	a, rj, exact := guardSets(c, val, 80)
+	a, rj, exact := guardSetsB(c, val, c.boundBuilder(valCall), 80)
 	want := stepSet(16, 64, 4)
 	r.Check(setEqual(a, want) && exact, "C03.entropy-sizes.accept-set", c.P.Pos(val.Pos()), "accept set of len(entropy) over 0..80 = %s, expected {16,20,…,64} (value-set analysis, %d reject values, exact=%v)", setString(a), len(rj), exact)
 	overlap := 0
